@@ -205,6 +205,10 @@ def c06(tier):
             corpus.append(gen.box(w, 1, "sharp", "ab") + "\n" + " " * r.randint(0, 3) + tg)
         else:
             corpus.append(gen.box(w + 2, 2, "sharp", tg) + "  " + r.choice(["o--", "*", "+--+"]))
+    # wide drawings with quoted labels (rows of several hundred bytes once moved far to the right)
+    for i in range(10):
+        w = r.randint(100, 140)
+        corpus.append("+" + "-" * w + "+\n| \"label %d\"" % i + " " * (w - 12) + " |\n+" + "-" * w + "+  \"q\" --")
     # a tab between two things on one line is one blank cell wherever the line starts
     corpus += ["+--+\t+--+\n|  |\t|  |\n+--+\t+--+", "---\t--->", "a\tb\t\tc", "|\t|\n+-\t-+", "\t/\n/\t"]
     groups = []
@@ -268,6 +272,11 @@ def c10(tier):
                                      + r.choice([" |", " -+", " a"]) for _ in range(r.randint(1, 3))))   # (a quoted string is never the right-most thing: F-C12-quoted-canvas)
         else:
             special.append(gen.box(r.randint(1, 6), r.randint(1, 3), r.choice(["sharp", "round", "uni"])))
+    # zero-width and combining characters outside quotes (they take a cell of their own), and arcs / circles of the
+    # catalogue with a stroke or a label attached
+    for i in range(16):
+        special.append(r.choice(["re\u0301sume\u0301 |", "a\u200db --", "x\u0308 +--+\n   |  |\n   +--+", "\ufe0f-->", "| e\u0301 |\n+---+"]))
+        special.append(gen.catalogue_scene(r, [r.choice(["ab", "x1"])]))
     # rows of many isolated components (rulers, tick marks, spaced labels) next to multi-row shapes
     for i in range(16):
         cnt = r.randint(8, 20)
@@ -427,6 +436,9 @@ def c17(tier):
         elif i % 3 == 1:
             # a quoted string followed by nothing, by a word, or by exactly one character right after the closing quote
             t = t + r.choice(['\n "quoted |-+ text" ' + r.choice(["", "一二", "x"]), '\n|"a-+b"|', '\n--> "out"*', '\n "q"' + r.choice("|+-x)")])
+        if i % 25 == 7:
+            # a document that begins with the legend: nothing below the header is a drawing, whatever the line endings
+            t = r.choice(LEGENDS[:3]) + "\n" + r.choice(["", "\n"]) + t
         g = [({"input": t, "want_style": True}, None)]
         for j in range(2 if tier == "quick" else 4):
             g.append(({"input": eol_variant(r, t, crlf=(j % 2 == 0)), "want_style": True}, {"kind": "eol", "of": j + 1}))
@@ -600,6 +612,8 @@ def c12(tier):
     for i in range(22):
         extra.append("\n".join(cat12[i]))
     extra += ["○", "●--", "⊕", "O", "(_)\n", "*-", "o"]
+    # ... and the arcs of the catalogue tables (quarter, half, three-quarter circles) in the top rows / left columns
+    extra += ["\n".join(gen.catalogue_art(r)) for _ in range(40 if tier == "quick" else 600)]
     texts = gen.dedup(corpus + extra + ["", " ", "\n\n", "a"])
     cases = []
     for i, t in enumerate(texts):
@@ -607,7 +621,8 @@ def c12(tier):
             cases.append({"input": t, "entry": "settings", "settings": {"scale": r.choice([0.5, 37.5, 3, 12.5])}})
         else:
             cases.append({"input": t})
-    for t in extra[-29:]:
+    origin = [t for t in extra if t and t[0] != "\n" and any(ch in t for ch in "()○●⊕O*o`'.,")][-90:]
+    for t in origin:
         for sc in (3, 12.5, 37.5):
             cases.append({"input": t, "entry": "settings", "settings": {"scale": sc}})
     obs = observe.observe(cases, tag="C12B")
@@ -862,6 +877,13 @@ def sink_cases(r, n, marker_prefix="mk"):
         if i % 3 == 0:
             # multi-byte characters in front of the payload, in the same run
             pay = r.choice(["éééééééééééé", "привет", "жжжжжжжжж;", "ßßßßßßßßßßßßßßßßßßßß"]) + pay
+        elif i % 3 == 1 and r.random() < 0.5:
+            # double-width characters after the payload, one to eight of them (every balance of bytes gained by
+            # escaping against filler bytes dropped)
+            pay = pay + "".join(r.choice(gen.WIDE[:12]) for _ in range(r.randint(1, 8)))
+        elif i % 3 == 2 and r.random() < 0.3:
+            # the payload where CSS expects a resource
+            pay = "fill: url(" + pay + ")"
         chan = ["plain", "quoted", "tag", "legend_name", "legend_decl", "quoted_tag"][i % 6]
         art = r.choice(["", gen.box(r.randint(2, 8), 1), gen.random_grid(r, 8, 2, "-|+/\\*o. ", 0.5), "o-->"])
         exp_t, exp_s = [], []
@@ -1310,11 +1332,15 @@ def c13(tier):
             if r.random() < 0.6:
                 rows[y] += "  " + " ".join(r.choice(gen.LABELS) for _ in range(r.choice([3, 18, 25])))
             if k >= 8 and r.random() < 0.5:
-                left = r.choice(['"e\u0301z"', "ab", '"a b"', "Z z", '"一"'])
+                left = r.choice(['"e\u0301z"', "ab", '"a b"', "Z z", '"一"', "一二", "ᄀ", "é"])
                 wcells = sum(2 if common_wide(c) else 1 for c in left)
                 if wcells + 2 <= k:
                     rows[y] = left + rows[y][wcells:]
         cases.append(("\n" * nn + "\n".join(x.rstrip() for x in rows), {"idx": idx + 1, "k": k, "n": nn, "extra": 3, "lx": 0, "ly": 0, "lch": 0}))
+        if j % 8 == 0:
+            # the drawing alone on the page, a legend below it (extra = 1: only things below a blank row)
+            cases.append(("\n" * nn + "\n".join(" " * k + x for x in D) + "\n\n# Legend:\na = {fill:red}\n",
+                          {"idx": idx + 1, "k": k, "n": nn, "extra": 1, "lx": 0, "ly": 0, "lch": 0}))
     obs = observe.observe([{"input": t} for t, _ in cases], tag="C13B")
     for (t, circ), o in zip(cases, obs):
         run.add_event({"props": ["C13"], "rows": o["rows"], "doc": o["doc"], "circ": circ}, {"input": t, "circ": circ})
@@ -1919,6 +1945,19 @@ def c07(tier):
             if s_:
                 rq["settings"] = s_
             reqs.append(rq)
+    # inputs of one and the same byte length (a buffer freed after one conversion is handed to the next), and different
+    # drawings that occupy exactly the same cells of the page (a circle, a box, an arc, and blocks of words in their place):
+    # converted one right after the other in every process
+    block = []
+    shapes_ = [" ,-.\n(   )\n `-'", "+---+\n|   |\n+---+", " .-.\n(\n `-", "ab cd\ne f g\nhi jk", "-----\n  |  \n-----", "\\   /\n  X  \n/   \\",
+               "o---o\n|   |\n*---*", "abcde\nfghij\nklmnp"]
+    for t in shapes_:
+        t = "\n".join(x.ljust(5) for x in t.split("\n"))
+        block.append("\n\n\n" + "\n".join("       " + x for x in t.split("\n")))
+    assert len(set(len(b.encode("utf-8")) for b in block)) == 1
+    for t in block:
+        reqs.append({"id": len(reqs), "input": t, "entry": "to_svg"})
+    block_ids = [rq["id"] for rq in reqs[-len(block):]]
     keyof = {rq["id"]: "%d|%s|%d" % (rq["id"], rq["entry"], rq["id"] % 3) for rq in reqs}
     # the thread corpus starts with inputs that force every lazy table (circles, quarter / half / three-quarter
     # arcs, Unicode glyphs), so that the first calls of racing threads initialise them concurrently
@@ -1962,7 +2001,12 @@ def c07(tier):
         second = list(reqs)
         rr.shuffle(second)
         second = second[:len(second) // 2]
-        return p, common.run_batch_process(order + second, tag="C07p%d" % p)
+        blk = [rq for rq in reqs if rq["id"] in block_ids]
+        tail = []
+        for _ in range(3):
+            rr.shuffle(blk)
+            tail += list(blk)
+        return p, common.run_batch_process(order + second + tail, tag="C07p%d" % p)
     with ThreadPoolExecutor(max_workers=min(common.NCPU, nprocs)) as ex:
         for p, resps in ex.map(one_proc, range(1, nprocs + 1)):
             for k, resp in enumerate(resps):
